@@ -478,6 +478,7 @@ func main() {
 	nops := flag.Int("n", 150, "operations per client")
 	nkeys := flag.Int("nkeys", 12, "keys")
 	withTx := flag.Bool("tx", true, "transaction user")
+	setro := flag.Bool("setro", false, "one client calls SetReadOnly at a random moment")
 	withClose := flag.Bool("close", false, "Close races with the clients")
 	fault := flag.String("fault", "", "kind:filetype:index:count storage fault")
 	hang := flag.Int("hang", 20, "seconds without progress before blocked calls are reported")
@@ -587,6 +588,19 @@ func main() {
 			err := e.db.Close()
 			e.ret(c, op, vt.Ev{"err": errName(err)})
 			close(closeDone)
+		}(c)
+	}
+	if *setro {
+		// one client switches the DB to read-only at some point (racing the writers, and Close when there is one)
+		c++
+		wg.Add(1)
+		go func(c int) {
+			defer wg.Done()
+			e.register(c)
+			time.Sleep(time.Duration(1+rng.Intn(32)) * time.Millisecond)
+			op := e.call(c, "setro", vt.Ev{})
+			err := e.db.SetReadOnly()
+			e.ret(c, op, vt.Ev{"err": errName(err)})
 		}(c)
 	}
 	finished := make(chan struct{})
